@@ -42,6 +42,8 @@ pub fn cases(args: &[String]) {
     let out = std::io::stdout();
     let mut out = std::io::LineWriter::new(out.lock());
     let mut index = 0u64;
+    let mut writer_env: Env = Vec::new();
+    let mut reader_env: Env = Vec::new();
     for line in std::io::BufReader::new(f).lines() {
         let line = line.unwrap();
         let line = line.trim();
@@ -55,8 +57,38 @@ pub fn cases(args: &[String]) {
         let sx = parse_all(rest);
         let res: Result<String, String> = match cmd {
             "E" => {
-                set_env(parse_env(&sx[0]));
+                writer_env = parse_env(&sx[0]);
+                set_env(writer_env.clone());
                 Ok("env".to_string())
+            }
+            "E2" => {
+                // the reading definition for `xrt`
+                reader_env = parse_env(&sx[0]);
+                Ok("env".to_string())
+            }
+            "xrt" => {
+                // encode with the writer's environment / type, decode with the reader's
+                let ty = parse_ty(&sx[0]);
+                let v = sx[1].clone();
+                let ty_r = parse_ty(&sx[2]);
+                let suffix = unhex(sx[3].atom());
+                set_env(writer_env.clone());
+                let e = guarded(std::panic::AssertUnwindSafe(move || enc_line(&ty, &v)));
+                let r = match e {
+                    Err(p) => format!("panic {} ; -", p.replace('\n', " ")),
+                    Ok((l, None)) => format!("{l} ; -"),
+                    Ok((l, Some(mut bytes))) => {
+                        bytes.extend_from_slice(&suffix);
+                        set_env(reader_env.clone());
+                        let d = guarded(std::panic::AssertUnwindSafe(move || dec_line(&ty_r, &bytes)));
+                        match d {
+                            Ok(dl) => format!("{l} ; {dl}"),
+                            Err(p) => format!("{l} ; panic {}", p.replace('\n', " ")),
+                        }
+                    }
+                };
+                set_env(writer_env.clone());
+                Ok(r)
             }
             "enc" => {
                 let ty = parse_ty(&sx[0]);
@@ -90,7 +122,7 @@ pub fn cases(args: &[String]) {
             }
             _ => panic!("bad command {cmd}"),
         };
-        let alloc = if with_alloc && cmd != "E" { format!(" A{}", max_req()) } else { String::new() };
+        let alloc = if with_alloc && cmd != "E" && cmd != "E2" { format!(" A{}", max_req()) } else { String::new() };
         match res {
             Ok(s) => writeln!(out, "{s}{alloc}").unwrap(),
             Err(p) => writeln!(out, "panic {}{alloc}", p.replace('\n', " ")).unwrap(),
